@@ -723,11 +723,16 @@ def _parse_source_for_lambda(
     source, lambda_line = _get_sourcelines(ast_source)
     first_line = lambda_line
     t_stream = None
+    # A lambda that sits on the line of a one-line `def` is still a lambda: only a named function
+    # is recovered from its `def`.
+    is_lambda = getattr(ast_source, "__name__", None) == "<lambda>"
     while func_name is None:
         # Setup the tokenizer
         t_stream = _token_runner(source, lambda_line)
 
-        func_name, start_token = t_stream.find_identifier(["def", "lambda"])
+        func_name, start_token = t_stream.find_identifier(
+            ["lambda"] if is_lambda else ["def", "lambda"]
+        )
 
         if start_token is None:
             return None
